@@ -45,6 +45,7 @@ func c10(r *lp.Run) {
 	c10Sorted(r, rng.Fork(1))
 	c10Collect(r, rng.Fork(2))
 	c10RespOrder(r, rng.Fork(4))
+	c10NameSorts(r, rng.Fork(5))
 	c10Repeat(r, rng.Fork(3))
 	c10Race(r)
 }
@@ -1054,4 +1055,58 @@ func c10RespKey(code int, with bool, ctype string, ctypes []string) string {
 	sort.Strings(sorted)
 	rank := sort.SearchStrings(sorted, ctype)
 	return fmt.Sprintf("%d:%d:%d", f, rank, code)
+}
+
+// the other sorts behind generated output that start from a Go map: gen.groupOperations (operation groups) and
+// ir.Type.ListImplementations (implementations of a response / sum interface) against the Lean model's sortedKeys
+// (driver tag sortkeys): names that differ in letter case only, prefixes of each other, non-ASCII bytes
+func c10NameSorts(r *lp.Run, rng *lp.Rand) {
+	pool := []string{"Users", "USERS", "users", "User", "UsersAdmin", "Admin", "ADMIN", "admin", "Zeta", "alpha", "Alpha", "_x", "É", "é", "A1", "A10", "A2"}
+	for i := 0; i < r.N(1500, 20000); i++ {
+		n := rng.Intn(10)
+		groups := make([]string, n)
+		var named []string
+		for k := range groups {
+			if rng.Chance(25) {
+				continue // an operation without a group
+			}
+			groups[k] = lp.Pick(rng, pool)
+			named = append(named, groups[k])
+		}
+		var ungrouped int
+		var names []string
+		var sizes []int
+		got := lp.Guard(func() string {
+			ungrouped, names, sizes = gen.VerifGroupOperations(groups)
+			return c10KeysHex(names)
+		})
+		r.PropCheck()
+		total := ungrouped
+		for _, s := range sizes {
+			total += s
+		}
+		if !strings.Contains(got, "panic") && (total != n || !sort.StringsAreSorted(names)) {
+			r.Fail(lp.PropFail{Property: "C10", What: "groupOperations loses operations or lists the groups out of order", Input: groups, Observed: fmt.Sprint(ungrouped, names, sizes), Expected: "every operation in exactly one place, groups in ascending order of their names"})
+		}
+		r.Case("sortkeys", c10KeysHex(named), got, "sortkeys-groups", len(names) > 1)
+
+		// ListImplementations: distinct names
+		perm := rng.Perm(len(pool))
+		impls := make([]string, 0, n)
+		for _, p := range perm[:min(n, len(pool))] {
+			impls = append(impls, pool[p])
+		}
+		gotI := lp.Guard(func() string {
+			iface := ir.Interface("I")
+			for _, name := range impls {
+				iface.Implementations[&ir.Type{Kind: ir.KindStruct, Name: name}] = struct{}{}
+			}
+			var out []string
+			for _, t := range iface.ListImplementations() {
+				out = append(out, t.Name)
+			}
+			return c10KeysHex(out)
+		})
+		r.Case("sortkeys", c10KeysHex(impls), gotI, "sortkeys-impls", len(impls) > 1)
+	}
 }
